@@ -36,8 +36,6 @@ Qed.
 Lemma set_nth_length {A} (l : list A) n x : List.length (set_nth n x l) = List.length l.
 Proof. revert n. induction l as [|y r IH]; intros [|n]; simpl; auto. Qed.
 
-Definition pos_f : string := "position_changed_callback".
-Definition stat_f : string := "status_changed_callback".
 
 (* a FlowHead-like node: a dataclass instance with the two callback attributes *)
 Definition cb_node (nd : node) (c : string) (fl : list string) (ks : list val) (p q : nat) : Prop :=
